@@ -70,6 +70,9 @@ def parse(text):
         if not tm or name.endswith("$fields") or name.endswith("$imethods") or name.endswith("$in") or name.endswith("$out"):
             continue
         d = {"size": int(tm.group(1)), "tflag": int(tm.group(4)), "kind": int(tm.group(7)) & 31, "kindbyte": int(tm.group(7)),
+             "align": int(tm.group(5)), "fieldalign": int(tm.group(6)),
+             # Equal func(unsafe.Pointer, unsafe.Pointer) bool follows the kind byte: a null closure = not comparable
+             "equal": not init[tm.end():].startswith("{ ptr, ptr } zeroinitializer"),
              "uncommon": None, "fields": None, "imethods": None, "pkgpath": None}
         # Str_ is the first String after the common header's Equal/GCData
         sm = re.compile(STRING).search(init, tm.end())
